@@ -78,7 +78,7 @@ class PyJMC:
         },
         envs: list[str] | None = None,
     ) -> None:
-        Header().envs = envs if envs is not None else []
+        Header().envs = list(envs) if envs is not None else []
         self.config = Configuration(
             GlobalData(),
             namespace=namespace,
